@@ -34,9 +34,10 @@ Next == /\ NoDangling(s) /\ Len(h) < 3 * MaxLen
            \/ s.lv[4] = "live" /\ Step(7, 4, 0, DynReeval(s, 4, {1, 2}))
 Spec == Init /\ [][Next]_<<s, h>>
 
-Pad(q) == q \o [i \in 1..(15 - Len(q)) |-> 0]
+Pad(q) == q \o [i \in 1..(24 - Len(q)) |-> 0]
 Tup(tag) == LET p == Pad(h) IN
-  <<tag, Len(h) \div 3, p[1], p[2], p[3], p[4], p[5], p[6], p[7], p[8], p[9], p[10], p[11], p[12], p[13], p[14], p[15]>>
+  <<tag, Len(h) \div 3, p[1], p[2], p[3], p[4], p[5], p[6], p[7], p[8], p[9], p[10], p[11], p[12], p[13], p[14], p[15],
+       p[16], p[17], p[18], p[19], p[20], p[21], p[22], p[23], p[24]>>
 Fold == LET RECURSIVE F(_) F(i) == IF i = 0 THEN 0 ELSE (h[i] * (i + 7) + F(i - 1)) % 100003 IN F(Len(h))
 Soft == /\ NoDangling(s) \/ PrintT(Tup("CEX"))
         /\ (Len(h) = 3 * MaxLen /\ NoDangling(s) /\ Fold % Sample = 0) => PrintT(Tup("BEH"))
